@@ -219,7 +219,7 @@ func maxf(a, b float64) float64 {
 // expectedProbes lists, per check, the probes and fault kinds that a healthy run must hit.
 var expectedProbes = map[string][]string{
 	"C02": {"eof-before-warm-up", "counts-checked"},
-	"C03": {"eof-before-warm-up", "unequal-eof", "compared-with-canonical", "buffered-inputs"},
+	"C03": {"cases-identical-for-every-GOMAXPROCS", "eof-before-warm-up", "unequal-eof", "compared-with-canonical", "buffered-inputs"},
 	"C04": {"producer-stalled-quiescence-observations", "eof-at-cut-point", "suffix-altered-after-cut-point", "cases-proved-by-causality", "cases-with-late-positions", "prefix-runs-compared", "suffix-runs-compared"},
 	"C05": {"eof-before-warm-up", "action-streams-checked", "decorator-warm-up-checked"},
 	"C09": {"calls-alive-at-once", "instance-reused-after-completed-call", "calls-compared-with-fresh-instance", "reports-compared-with-fresh-instance", "canaries-identical-in-all-process-histories", "process-history-orders(fresh-process-each)"},
